@@ -17,8 +17,24 @@ def prop(pid, families, **kw):
     return deco
 
 
+def ast_tags(t, tags):
+    if t.get('op') in (None, 'NIL'):
+        return
+    if t['op'] not in ('VAR', 'INT', 'NUM', 'STR'):
+        tags.add('op:' + t['op'])
+    ast_tags(t.get('l', {}), tags)
+    ast_tags(t.get('r', {}), tags)
+
+
+EMPTY_MODEL = {'root': '', 'feats': [], 'rels': [], 'ctcs': []}
+
+
 def case_tags(case):
     """Coverage facts of a case (evidence only; no verdict depends on them)."""
+    if 'ast' in case:
+        tags = set()
+        ast_tags(case['ast'], tags)
+        return sorted(tags)
     m = case['model']
     tags = set()
     for r in m['rels']:
@@ -51,7 +67,7 @@ def case_tags(case):
 
 def mk_trace(pid, cid, k, case, naming, events, extra=None):
     tid = '%s-%s-n%d' % (pid, cid, k)
-    meta = {'hist': case['hist'], 'model': case['model'], 'naming': naming.describe(),
+    meta = {'hist': case.get('hist', []), 'model': case.get('model', EMPTY_MODEL), 'naming': naming.describe(),
             'tags': case_tags(case)}
     if extra:
         meta.update(extra)
@@ -98,8 +114,8 @@ def coverage(pid, tm):
     for tr, meta in tm:
         for t in meta.get('tags', []):
             tagc[t] = tagc.get(t, 0) + 1
-        if len(meta['model']['feats']) > 1 or meta['model']['ctcs']:
-            distinct.add(repr(meta['hist']) + repr(meta['naming']['map']))
+        if len(meta['model']['feats']) > 1 or meta['model']['ctcs'] or meta.get('ast'):
+            distinct.add(repr(meta['hist']) + repr(meta.get('ast')) + repr(meta['naming']['map']))
     return {'nontrivial': len(distinct),
             'rule': 'cases are the reachable states of the TLC builder state machine (spec/FM.tla) '
                     'under the family constants; a case is non-trivial when its model has more than '
@@ -152,3 +168,15 @@ prop('C15', ['Tree', 'TreeCtc'], naming_matters=False, assumptions=SEM_ASSUME)(o
 prop('C16', ['Tree', 'DecorAbs'], naming_matters=False,
      assumptions=['corpus models above the TLC size bound are judged on scalar summaries only'])(
     ops_script(['leaves', 'count_leaves', 'depth', 'abf', 'varpoints', 'ancestors']))
+
+
+# ---------------------------------------------------------------------------
+@prop('C18', ['Ast', 'AstDeep'], naming_matters=False,
+      assumptions=['equivalence is decided by complete truth tables over the atoms of the tree'])
+def script_c18(case, naming, tier, seed):
+    from flamapy.core.models.ast import AST
+    from flamapy.metamodels.fm_metamodel.models import Constraint
+    from build import build_node
+    ctc = Constraint('c1', AST(build_node(case['ast'], naming)))
+    ret = observe.classify(ctc, naming)
+    return [{'a': 'Classify', 'args': {'ast': case['ast']}, 'out': 'value', 'ret': ret}], {'ast': case['ast']}
